@@ -33,6 +33,7 @@ RULE = ("valid rules (antecedents to depth 3 with hedges / any / parentheses, 1-
         "parenthesis, non-numeric weight, trailing token); FLL documents of generated engines mutated by line / token "
         "deletion, duplication, substitution, truncation, reordering.  Non-trivial: the model rejects the text or accepts "
         "a text that differs from the valid original; distinct = distinct (text, engine)")
+RULE += (" Stream `load-rules` (fv/streams/load_rules.py): RuleBlock.load_rules / reload_rules on blocks of 1-6 rules mixing loadable and unloadable texts (some rule objects loaded with another text before) against Op.loadRules: RuntimeError iff a rule fails, is_loaded of every rule, order of the message, class of every failure.")
 ASSUMPTIONS = ["rule texts are compared with the executable Lean model of Rule.parse / Antecedent.load / Consequent.load "
                "(error kind, loaded tree, conclusions, weight, degrees); FLL documents have no Lean model: for them the "
                "check is the property oracle alone (error class, is_loaded, export / re-import fixpoint)",
